@@ -227,7 +227,7 @@ def c05(tier):
     for i, tab in enumerate(op_tables(quick, rng)):
         nl = len(tab)
         # levels need not be 1..n: use gaps and a shuffled mapping that keeps the order
-        lv = sorted(rng.sample(range(1, 9), nl))
+        lv = sorted(rng.sample([1, 2, 3, 7, 9, 10, 11, 12, 19, 20, 21, 99, 100, 101, 1000, 65536], nl))
         cases.append(climb_case("ops-%d-%s" % (i, "".join("%s%d" % ("R" if a else "L", n) for a, n in tab)),
                                 tab, lv, fn=(i % 3 == 0)))
         if i % 2 == 0 or not quick:
